@@ -80,3 +80,44 @@ def worker_cleared_after_stop(ck, cls, tag, rule):
         ck.ob(rule, sitestr(rs, c), ok, "%s: the worker pointer is cleared only after quit() and wait(): until then every message goes through the queue" % tag if ok else
               "%s: the worker pointer is cleared while the thread may still be delivering the backlog: a message logged meanwhile is run synchronously on the caller's thread, overtaking queued ones" % tag,
               key="resetOwnThread|clear-before-wait")
+
+
+def resolve_roles(F):
+    """the fields of OwnThreadHandler by role, whatever they are called and wherever they live (directly in the class or in a member
+    struct held by value): worker pointer, thread object, pending counter, hand-off mutex; the event's payload. The rules keep
+    writing OT::m_worker etc.; engine.facts.FIELD_ALIAS maps those canonical names to the actual ones."""
+    import re
+    from engine import facts as FX
+    cands = {"m_worker": [], "m_thread": [], "m_pendingCount": [], "m_mutex": [], "LogEvent::lmsg": []}
+    for q, rec in F.records.items():
+        qs = strip_tmpl(q)
+        if not (qs == OT or qs.startswith(OT + "::")):
+            continue
+        inner = qs[len(OT):]
+        for f_ in rec.get("fields", []):
+            t = (f_.get("type") or "").replace("const ", "").strip()
+            full = strip_tmpl(f_.get("qname") or (qs + "::" + f_["name"]))
+            if inner.endswith("::LogEvent"):
+                if re.search(r"\bLogMessage$", t):
+                    cands["LogEvent::lmsg"].append(full)
+                continue
+            if inner.endswith("::Worker"):
+                continue
+            if re.search(r"\bWorker \*$", t):
+                cands["m_worker"].append(full)
+            elif "QThread" in t:
+                cands["m_thread"].append(full)
+            elif re.search(r"QAtomicInt|QAtomicInteger|std::atomic<", t):
+                cands["m_pendingCount"].append(full)
+            elif re.search(r"\b(QMutex|QRecursiveMutex|QBasicMutex|std::mutex|std::recursive_mutex)$", t):
+                cands["m_mutex"].append(full)
+    out = {}
+    for role, names in cands.items():
+        names = sorted(set(names))
+        canon = OT + "::" + role
+        if len(names) == 1 and names[0] != canon:
+            FX.FIELD_ALIAS[canon] = {names[0]}
+        elif canon in FX.FIELD_ALIAS and (len(names) != 1 or names[0] == canon):
+            del FX.FIELD_ALIAS[canon]
+        out[role] = names
+    return out
